@@ -25,6 +25,11 @@ type Trial struct {
 	// ReadBuf is the size of the buffer the collector reads delivered messages with; -1 = the collector flattens the
 	// message with utils.ToBytes, the way the shipped format codecs consume a frame.
 	ReadBuf int
+	// Wrap: run the channel on the library's transport wrapper NewTransport(conn, Wrap[0], Wrap[1]) around the scripted
+	// transport. A read-buffering wrapper pulls ahead of the decoder, so transport offsets say nothing about what a
+	// frame consumed: ContentOnly switches the offset-based bookkeeping (phantom detection) off.
+	Wrap        *[2]int
+	ContentOnly bool
 	// Watchdog for the whole trial (default 20 s); expiry is inconclusive, never a verdict.
 	Watchdog time.Duration
 }
@@ -134,7 +139,7 @@ func (c collector) HandleRead(ctx netty.InboundContext, message netty.Message) {
 	stop := ""
 	if m.Err == nil {
 		p.deliv++
-		if m.OffOut == m.IterIn {
+		if m.OffOut == m.IterIn && !p.trial.ContentOnly {
 			m.Phantom = true
 			n := 0
 			for _, o := range p.res.Msgs {
@@ -213,7 +218,7 @@ func Run(t Trial) (res *Result) {
 		return res
 	}
 	rig := mon.NewRig(mon.RigOpts{Mode: mon.Sync, Handlers: []netty.Handler{front{p}, cd, collector{p}},
-		NoPark: true, QuietTail: true, Tr: tr, NoHooks: true})
+		NoPark: true, QuietTail: true, Tr: tr, NoHooks: true, Wrap: t.Wrap})
 	wd := t.Watchdog
 	if wd == 0 {
 		wd = 20 * time.Second
